@@ -16,7 +16,7 @@ SHARDS = {'quick': 16, 'thorough': 16}
 MIN_NONTRIVIAL = {'quick': 5000, 'thorough': 150000}
 REQUIRED_CLASSES = ['number-type:py', 'number-type:np.float64', 'number-type:np.int', 'number-type:ndarray', 'add', 'sub', 'mul', 'div', 'neg', 'pow-int', 'pow-pair', 'pow-float', 'pow-float-noninteger', 'reflected-number-left',
                     'number-right', 'array', 'scalar', 'different-units-same-dimension', 'total-cancellation', 'partial-cancellation',
-                    'refuse-different-dimension', 'refuse-reciprocal-dimension', 'refuse-number-plus-dimensional', 'compound-operand', 'sum-of-number-and-dimensionless-unit']
+                    'refuse-different-dimension', 'refuse-reciprocal-dimension', 'refuse-number-plus-dimensional', 'compound-operand', 'sum-of-number-and-dimensionless-unit', 'chain', 'chain:root-of-square', 'chain:product-of-halves', 'chain:np.sqrt-of-square']
 REQUIRED_MONITORS = ['base_value_compares', 'dimension_compares', 'unit_exponent_compares', 'refusals_demanded']
 ASSUMPTIONS = ['units_ref factors come from the published tables', 'rtol 1e-9 (absolute term 1e-9*max|operand base value| for sums)',
                'only total cancellation is required to drop units', 'fractional powers use positive magnitudes',
@@ -123,6 +123,22 @@ def cases(rng, tier, shard, nshards, ctx):
             else:
                 v = gen_unit(rng, ctx); kind = 'other'
             yield dict(op=op, u=u, v=v, kind=kind, xa=pick(rng), xb=pick(rng), arr=arr, side=rng.choice(['right', 'left']), numtype=rng.choice(['py', 'py', 'np.float64', 'np.int', 'ndarray']))
+        elif r < 0.66:
+            # two steps: a quantity whose whole exponents came out of FRACTIONAL arithmetic (root of a square, product of two
+            # half powers, cube root of a cube, a unit string with halves) is added to / subtracted from a quantity of the same
+            # dimension in another unit
+            if not ctx.get('samedim'):
+                by = {}
+                for p_, u_ in ctx['atoms']:
+                    d_ = ctx['T'].atom(p_, u_)[1]
+                    if any(d_) and all(getattr(x_, 'denominator', 1) == 1 for x_ in d_):
+                        by.setdefault(d_, []).append((p_, u_))
+                ctx['samedim'] = [L for L in by.values() if len(L) >= 2]
+            L = rng.choice(ctx['samedim'])
+            a_, b_ = rng.choice(L), rng.choice(L)
+            yield dict(op='chain', form=rng.choice(['root-of-square', 'float-root-of-square', 'product-of-halves', 'cube-root-of-cube', 'np.sqrt-of-square', 'string-of-halves']),
+                       a=list(a_), b=list(b_), xa=pick(rng, positive=True), xb=pick(rng), then=rng.choice(['add', 'sub']), side=rng.choice(['right', 'left']), arr=arr,
+                       u=None, v=None, kind='chain')
         elif r < 0.68:
             yield dict(op='neg', u=gen_unit(rng, ctx), v=None, kind='neg', xa=pick(rng), xb=0, arr=arr, side='right')
         else:
@@ -155,7 +171,66 @@ def factor_of_map(T, um):
     return f, tuple(dims)
 
 
+def run_chain(case, ctx):
+    T, Q, np = ctx['T'], ctx['Q'], ctx['np']
+    (pa, ua), (pb, ub) = case['a'], case['b']
+    fa, da = T.atom(pa, ua)
+    fb, db = T.atom(pb, ub)
+    at, bt = U.render(['a', pa, ua, 1, 1]), U.render(['a', pb, ub, 1, 1])
+    form, arr = case['form'], case['arr']
+    xa = [case['xa'], case['xa'] * 2, case['xa'] * 0.25] if arr else [case['xa']]
+    xb = [case['xb'], case['xb'] * -1.5, case['xb'] * 3] if arr else [case['xb']]
+    mk = lambda xs, t: Q(list(xs), t) if arr else Q(xs[0], t)
+    classes = ['chain', 'chain:' + form, 'chain-then-' + case['then'], 'array' if arr else 'scalar']
+    devs, mon = [], {}
+    try:
+        if form == 'root-of-square':
+            q1, base1, text = mk(xa, U.render(['a', pa, ua, 2, 1])) ** (1, 2), [math.sqrt(x) * fa for x in xa], 'Quantity(x,%r)**(1,2)' % U.render(['a', pa, ua, 2, 1])
+        elif form == 'float-root-of-square':
+            q1, base1, text = mk(xa, U.render(['a', pa, ua, 2, 1])) ** 0.5, [math.sqrt(x) * fa for x in xa], 'Quantity(x,%r)**0.5' % U.render(['a', pa, ua, 2, 1])
+        elif form == 'np.sqrt-of-square':
+            q1, base1, text = np.sqrt(mk(xa, U.render(['a', pa, ua, 2, 1]))), [math.sqrt(x) * fa for x in xa], 'np.sqrt(Quantity(x,%r))' % U.render(['a', pa, ua, 2, 1])
+        elif form == 'cube-root-of-cube':
+            q1, base1, text = mk(xa, U.render(['a', pa, ua, 3, 1])) ** (1, 3), [x ** (1.0 / 3) * fa for x in xa], 'Quantity(x,%r)**(1,3)' % U.render(['a', pa, ua, 3, 1])
+        elif form == 'product-of-halves':
+            h = U.render(['a', pa, ua, 1, 2])
+            q1, base1, text = mk(xa, h) * Q(2.0, h), [x * 2.0 * fa for x in xa], 'Quantity(x,%r)*Quantity(2,%r)' % (h, h)
+        else:
+            h = U.render(['*', ['a', pa, ua, 1, 2], ['a', pa, ua, 1, 2]])
+            q1, base1, text = mk(xa, h), [x * fa for x in xa], 'Quantity(x,%r)' % h
+        q2 = mk(xb, bt)
+        base2 = [x * fb for x in xb]
+        left = case['side'] == 'left'
+        Lq, Rq, Lb, Rb = (q2, q1, base2, base1) if left else (q1, q2, base1, base2)
+        res = (Lq + Rq) if case['then'] == 'add' else (Lq - Rq)
+    except (OverflowError, ZeroDivisionError):
+        return outcome(skip='overflow')
+    except Exception as e:
+        mon['base_value_compares'] = 1
+        devs.append(dev('sum-after-fractional-arithmetic-raises', dict(first=text, other_unit=bt, then=case['then'], exc='%s: %s' % (type(e).__name__, str(e)[:160]))))
+        return outcome(classes=classes, nontrivial=True, fp='chain %s %s %s %s %s' % (form, at, bt, case['then'], case['side']), dev=devs, monitors=mon,
+                       sample=dict(first=text, other=bt))
+    exp = [(x + y) if case['then'] == 'add' else (x - y) for x, y in zip(Lb, Rb)]
+    try:
+        f, dims = factor_of_map(T, U.unitmap_from_real(res.baseunits))
+    except OverflowError:
+        return outcome(skip='overflow')
+    v = res.magnitude.value
+    obs = [float(z) * f for z in (v.tolist() if hasattr(v, 'tolist') and getattr(v, 'ndim', 0) else [v])]
+    mon['base_value_compares'] = 1
+    scale = max(abs(z) for z in Lb + Rb) or 1.0
+    if len(obs) != len(exp) or not all(close(o, e, 1e-9, 1e-9 * scale) for o, e in zip(obs, exp)):
+        devs.append(dev('chain-base-value', dict(first=text, other_unit=bt, then=case['then'], observed=obs, expected=exp)))
+    mon['dimension_compares'] = 1
+    if tuple(dims) != tuple(da):
+        devs.append(dev('chain-dimensions', dict(first=text, observed=[str(x) for x in dims], expected=[str(x) for x in da])))
+    return outcome(classes=classes, nontrivial=True, fp='chain %s %s %s %s %s' % (form, at, bt, case['then'], case['side']), dev=devs, monitors=mon,
+                   sample=dict(first=text, other=bt, then=case['then'], expected_base=exp, observed_base=obs))
+
+
 def _run(case, ctx):
+    if case['op'] == 'chain':
+        return run_chain(case, ctx)
     T, Q, np = ctx['T'], ctx['Q'], ctx['np']
     op, arr = case['op'], case['arr']
     classes = [op if op != 'pow' else 'pow-' + case['kind'], 'array' if arr else 'scalar']
